@@ -49,6 +49,25 @@ LabelsWriteOnce == [][\A id \in DOMAIN m.labels : id \in DOMAIN m'.labels /\ m'.
 OutputAppendOnly == [][IsPrefix(m.out, m'.out) /\ IsPrefix(m.err, m'.err)]_vars
 ExitIsFinal == [][m.status # "run" => m' = m]_vars
 InputOnlyConsumed == [][IsSuffix(m'.inp, m.inp)]_vars
+\* ---- control-flow discipline (design facts of the language definition, checked in every explored step)
+LabelTargets(S) == {S.labels[id] : id \in DOMAIN S.labels}
+\* control moves to the next command, to a recorded label, or back to the last jump source - nowhere else
+PcDiscipline == [][(steps' = steps + 1 /\ m'.status = "run") =>
+                     \/ m'.pc = m.pc + 1
+                     \/ m'.pc \in LabelTargets(m)
+                     \/ (m.last # NoLast /\ m'.pc = m.last)]_vars
+\* the last jump source changes only when a label jump is taken, and then it is the jumping command
+LastDiscipline == [][m'.last # m.last => (m'.last = m.pc /\ m'.pc \in LabelTargets(m) /\ m'.pc # m.pc)]_vars
+\* a label is recorded at the command that mentions it first, and at most one per step
+LabelAtSource == [][\A id \in (DOMAIN m'.labels) \ (DOMAIN m.labels) : m'.labels[id] = m.pc /\ m'.pc = m.pc + 1]_vars
+OneLabelPerStep == [][Cardinality((DOMAIN m'.labels) \ (DOMAIN m.labels)) <= 1]_vars
+\* the selected stack changes only through a duplicate command, to its dot count
+CurDiscipline == [][m'.cur # m.cur => (prog[m.pc + 1].k = 5 /\ m'.cur = prog[m.pc + 1].d)]_vars
+\* a program without areas runs straight through: one command per step
+JumpFree == \A i \in DOMAIN prog : prog[i].a = Nil
+InvStraightLine == (JumpFree /\ m.status = "run") => (m.pc = steps /\ m.last = NoLast /\ DOMAIN m.labels = {})
+\* stacks 1 and 2 (the output stacks) never hold anything: a push there is printed at once
+InvOutputStacksEmpty == (DOMAIN m.st) \cap {1, 2} = {}
 
 \* a behaviour is complete when the run has ended one way or another, or the step bound cut it;
 \* a run standing at the end of the program is the normal end of that (possibly shorter) program
